@@ -52,9 +52,12 @@ def stepC (acc : CAcc) (op ob : String) : CAcc :=
             let f := ob.splitOn ":"
             match parseReply (f.getD 1 "") with
             | some served =>
-              match acc.stored.find? (fun e => lower e.1 == lower k) with
-              | some (_, r, birth) =>
-                let d := acc.s.now - birth
+              -- names are case-insensitive; whether the cache folds case is not part of the property, so every stored
+              -- reply whose key equals the looked-up key up to case is a candidate: the hit must be one of them, aged
+              let cands := acc.stored.filter (fun e => lower e.1 == lower k)
+              let judgeOne := fun (e : _ × Reply × Nat) =>
+                let r := e.2.1
+                let d := acc.s.now - e.2.2
                 (if d > getExpiry r * ns then ["unsat:C06.not_past_ttl:served-after-min-ttl"] else []) ++
                 (if served.answer == r.answer.map (· - d / ns) && served.authority == r.authority.map (· - d / ns) &&
                     served.additional == r.additional.map (· - d / ns) && (allTtls r).all (fun t => d / ns ≤ t)
@@ -62,7 +65,14 @@ def stepC (acc : CAcc) (op ob : String) : CAcc :=
                    [s!"unsat:C06.ttl_is_original_minus_elapsed:{if (allTtls served).zip (allTtls r) |>.any (fun (a, b) => a > b) then "ttl-grew-or-wrapped" else "wrong-decrement"}",
                     -- the same observation read as C03: TTLs are reduced by the time spent in the cache, nothing else
                     "unsat:C03.ttl_reduced_by_time_in_cache_only:cache-hit"])
-              | none => ["unsat:C06.same_key_only:hit-for-key-never-stored"]
+              if cands.isEmpty then ["unsat:C06.same_key_only:hit-for-key-never-stored"]
+              else
+                let verdicts := cands.map judgeOne
+                -- satisfied by some candidate; otherwise report against the entry stored under exactly this key (or the first)
+                if verdicts.any List.isEmpty then []
+                else (match acc.stored.find? (fun e => e.1 == k) with
+                      | some e => judgeOne e
+                      | none => verdicts.headD [])
             | none => ["unsat:C06.harness:unparsable-hit"]
           else if ob == "miss" then []
           else ["unsat:C06.harness:unexpected"]
